@@ -7,7 +7,8 @@
      IDesc  one matcher exported by testtools.matchers (or a combinator
             expression): kinds of str(m), describe(), get_details(),
             str(MismatchError) for both verbosities, abstracted to
-            Text | Dict | Raised cls | Other;
+            Text | Dict | Raised cls | Other; and whether assertThat / assert_that /
+            expectThat on that matcher and value raised and failed the test;
      ITest  a real TestCase whose setUp, test method, tearDown and cleanups are
             sequences of assertThat / expectThat / assert_that statements on
             matchers that match or mismatch with given details, and of statements
@@ -26,6 +27,7 @@ Inductive input :=
 Inductive obs :=
 | ORepr (out : list N) (evals_back : bool)
 | ODesc (kinds : list okind)
+        (asserts : list bool)    (* on that matcher and value: assertThat raised, assert_that raised, expectThat raised, the test failed *)
 | OTest (raised : list (list bool))     (* per user function that ran, in order: did statement k raise *)
         (after_ran : bool)              (* the outcome was reported after all of them had finished *)
         (oc : outcome) (details : list detail)   (* payload details only *)
@@ -51,6 +53,10 @@ Definition okind_eqb (a b : okind) : bool :=
 (* str(m); then, for a mismatching value, describe(), get_details(), str(MismatchError) terse and verbose *)
 Definition expected_kinds (has_mismatch : bool) : list okind :=
   if has_mismatch then [KText; KText; KDict; KText; KText] else [KText].
+(* assertThat and assert_that raise MismatchError exactly when match() returned a mismatch (whatever its truth
+   value); expectThat never raises but makes the test fail *)
+Definition expected_asserts (has_mismatch : bool) : list bool :=
+  [has_mismatch; has_mismatch; false; has_mismatch].
 
 (* ---------- assertThat / expectThat / assert_that ---------- *)
 Definition is_some {A} (o : option A) : bool := match o with Some _ => true | None => false end.
@@ -146,7 +152,8 @@ Definition test_okb (p : prog) (raised : list (list bool)) (after_ran : bool) (o
 Definition spec_okb (i : input) (o : obs) : bool :=
   match i, o with
   | IRepr isb s _ _, ORepr out eb => repr_okb isb s out eb
-  | IDesc _ modelled hm, ODesc kinds => negb modelled || list_eqb okind_eqb kinds (expected_kinds hm)
+  | IDesc _ modelled hm, ODesc kinds asserts =>
+      negb modelled || (list_eqb okind_eqb kinds (expected_kinds hm) && list_eqb Bool.eqb asserts (expected_asserts hm))
   | ITest p, OTest raised after oc od => test_okb p raised after oc od
   | _, _ => false
   end.
@@ -160,7 +167,8 @@ Definition OutcomeOk (p : prog) (oc : outcome) : Prop :=
 Definition Spec (i : input) (o : obs) : Prop :=
   match i, o with
   | IRepr isb s _ _, ORepr out eb => eb = true /\ eval_lit out = Some (isb, s)
-  | IDesc _ modelled hm, ODesc kinds => modelled = true -> kinds = expected_kinds hm
+  | IDesc _ modelled hm, ODesc kinds asserts =>
+      modelled = true -> kinds = expected_kinds hm /\ asserts = expected_asserts hm
   | ITest p, OTest raised after oc od =>
       raised = map exp_raised (phases p)
       /\ after = true
